@@ -5,6 +5,7 @@ import Driver.C03
 import Driver.C05
 import Driver.C06
 import Driver.C07
+import Driver.C08
 import Driver.C09
 import Driver.C28
 import Driver.C29
@@ -39,6 +40,7 @@ def step (line : String) : String :=
   | "C05" :: ts => stepC05 ts
   | "C06" :: ts => stepC06 ts
   | "C07" :: ts => stepC07 ts
+  | "C08" :: ts => stepC08 ts
   | "C09" :: ts => stepC09 ts
   | "C10" :: ts => stepC10 ts
   | "C11" :: ts => stepC11 ts
